@@ -252,7 +252,7 @@ DFAContentModel::validateContent( QName** const        children
             continue;
 
         // Look up this child in our element map
-        unsigned int elemIndex = 0;
+        XMLSize_t elemIndex = 0;
         for (; elemIndex < fElemMapSize; elemIndex++)
         {
             const QName* inElem  = fElemMap[elemIndex];
@@ -394,7 +394,7 @@ bool DFAContentModel::validateContentSpecial(QName** const            children
             continue;
 
         // Look up this child in our element map
-        unsigned int elemIndex = 0;
+        XMLSize_t elemIndex = 0;
         for (; elemIndex < fElemMapSize; elemIndex++)
         {
             QName* inElem  = fElemMap[elemIndex];
@@ -497,7 +497,7 @@ bool DFAContentModel::handleRepetitions(const QName* const curElem,
                                         unsigned int currentLoop,
                                         unsigned int& nextState,
                                         unsigned int& nextLoop,
-                                        XMLSize_t elemIndex,
+                                        XMLSize_t& elemIndex,
                                         SubstitutionGroupComparator * comparator) const
 {
     nextLoop = 0;
@@ -530,7 +530,7 @@ bool DFAContentModel::handleRepetitions(const QName* const curElem,
                     // transition to take is resolved by the current value of the counter. Since
                     // we've already seen enough instances of the first "foo" perhaps there is
                     // another element declaration or wildcard deeper in the element map which
-                    // matches.
+                    // matches. The caller is told, through elemIndex, which one it was.
                     unsigned int tempNextState = 0;
 
                     while (++elemIndex < fElemMapSize) {
